@@ -275,12 +275,7 @@ fn run_shard(ctx: &ShardCtx) {
         match compare_high(seq) {
             Ok(ill) => {
                 if ill {
-                    // fingerprint = the sequence itself packed into a u64 (at most 4 bytes + length)
-                    let mut fp = seq.len() as u64;
-                    for b in seq {
-                        fp = (fp << 8) | *b as u64;
-                    }
-                    ctx.nontrivial(fp, || bytes_json(seq));
+                    ctx.nontrivial_enum(|| bytes_json(seq));
                 }
                 true
             }
@@ -335,7 +330,7 @@ fn run_shard(ctx: &ShardCtx) {
     ctx.class_n("enumerated", enumerated);
 
     // G2
-    ctx.run_prop("stream-cli", ctx.tier.pick(150_000, 3_000_000), case_strategy(), case_json, |c| match run_case(c) {
+    ctx.run_prop("stream-cli", ctx.tier.pick(1_000_000, 10_000_000), case_strategy(), case_json, |c| match run_case(c) {
         Ok(nt) => {
             if nt {
                 ctx.class("cli:malformed followed by Enter/recall/redraw");
